@@ -74,6 +74,9 @@ func (c *c09Conn) Read(p []byte) (int, error) {
 	if !c.rdlSet || c.rdl.Sub(time.Now()) != c.timeout {
 		c.note("read without a fresh deadline of now + data timeout")
 	}
+	if !c.rdl.After(time.Now()) {
+		return 0, c09Timeout{} // a deadline that has already passed fails the operation at once
+	}
 	c.rdlSet = false
 	mode := 2
 	if k < len(c.readModes) {
@@ -110,6 +113,9 @@ func (c *c09Conn) Write(p []byte) (int, error) {
 	}
 	if !c.wdlSet || c.wdl.Sub(time.Now()) != c.timeout {
 		c.note("write without a fresh deadline of now + data timeout")
+	}
+	if c.wdlSet && !c.wdl.After(time.Now()) {
+		return 0, c09Timeout{}
 	}
 	c.writes = append(c.writes, append([]byte{}, p...))
 	switch c.writeMode {
@@ -208,16 +214,19 @@ func c09Choice(label string, n uint8) int {
 // write ok/error/stall; up to three reads, each data (1 or 2 solver-chosen bytes) / EOF / stall /
 // reset; optional cancellation at a chosen instant.
 func VerifH_C09_probe() {
-	// TIMEOUTS 0: connect and data timeouts 2 s / 2 s; 1: 1 s / 2 s; 2: 3 s / 1 s
+	// TIMEOUTS 0: connect and data timeouts 2 s / 2 s; 1: 1 s / 2 s; 2: 3 s / 1 s; 3: 1 s / 0
 	tsel := verifParam("TIMEOUTS", 0)
-	dialT := []time.Duration{2 * time.Second, time.Second, 3 * time.Second}[tsel]
-	dataT := []time.Duration{2 * time.Second, 2 * time.Second, time.Second}[tsel]
+	dialT := []time.Duration{2 * time.Second, time.Second, 3 * time.Second, time.Second}[tsel]
+	dataT := []time.Duration{2 * time.Second, 2 * time.Second, time.Second, 0}[tsel] // 3: data timeout 0 = every operation times out at once
 	verifNow()
 	c09DialCalls, c09Connected = 0, false
 	c09DialMode = c09Choice("dial", 3)
 	c09DialLatency = []time.Duration{0, dialT - time.Millisecond}[c09Choice("dialLatency", 2)]
 	peer := &c09Conn{closedCh: make(chan struct{}), timeout: dataT}
 	peer.latency = []time.Duration{0, dataT - time.Millisecond}[c09Choice("replyLatency", 2)]
+	if peer.latency < 0 {
+		peer.latency = 0
+	}
 	c09Peer = peer
 	peer.lingerErr = ndBool("lingerFails")
 	peer.writeMode = c09Choice("write", 3)
@@ -269,7 +278,7 @@ func VerifH_C09_probe() {
 	}
 	// did the server answer 05 00 as the first two bytes?
 	got := 0
-	answered := connected && !peer.lingerErr && peer.writeMode == 0
+	answered := connected && !peer.lingerErr && peer.writeMode == 0 && dataT > 0
 	if answered {
 		for k := 0; k < 2 && got < 2; k++ {
 			if peer.readModes[k] != 0 {
